@@ -11,8 +11,9 @@ def snap(o, depth=0):
     if o is None or isinstance(o, (bool, str, int)): return o
     if isinstance(o, (float, numpy.floating)): return float(o).hex() if math.isfinite(float(o)) else repr(float(o))
     if isinstance(o, (list, tuple, numpy.ndarray)): return [snap(x, depth + 1) for x in o]
-    if hasattr(o, '__attrs_attrs__'): return {a.name: snap(getattr(o, a.name), depth + 1) for a in o.__attrs_attrs__}
-    if hasattr(o, '__dict__'): return {k: snap(v, depth + 1) for k, v in vars(o).items() if not k.startswith('__')}
+    # private attributes (caches) are not part of an object's value: what a cache does wrong shows as a RESULT that depends on the history
+    if hasattr(o, '__attrs_attrs__'): return {a.name: snap(getattr(o, a.name), depth + 1) for a in o.__attrs_attrs__ if not a.name.startswith('_')}
+    if hasattr(o, '__dict__'): return {k: snap(v, depth + 1) for k, v in vars(o).items() if not k.startswith('_')}
     if isinstance(o, dict): return {str(k): snap(v, depth + 1) for k, v in o.items()}
     return repr(type(o))
 
@@ -26,7 +27,9 @@ def world(case):
     comps = [Composition(p, 'molar') for p in (0.0, 0.25, 0.6, 1.0)] + [Composition(0.3, 'weight')]
     perms = (Permeance(0.02), Permeance(1e-7, 'SI'))
     ms = Measurements([Measurement(x=0.1 + 0.15 * i, t=T, p=0.02 * math.exp(0.5 * i * 0.1)) for T in (313.15, 333.15) for i in range(3)])
-    return dict(pv=pv, mix=mix, mem=mem, dcs=dcs, cond=cond, comps=comps, perms=perms, ms=ms)
+    import attr as _attr
+    mix2 = _attr.evolve(mix, first_component=_attr.evolve(mix.first_component, molecular_weight=mix.first_component.molecular_weight * 2.5))      # same name, other molar mass
+    return dict(pv=pv, mix=mix, mem=mem, dcs=dcs, cond=cond, comps=comps, perms=perms, ms=ms, mix2=mix2)
 
 
 def calls():
@@ -34,14 +37,20 @@ def calls():
     from pyvaporation.mixtures import get_partial_pressures
     def flux(model, i, T): return lambda w: w['pv'].calculate_partial_fluxes(T, w['comps'][i], 5e-5, w['cond'].permeate_temperature, w['cond'].permeate_pressure, calculation_type=model)
     L = []
+    def flux_given(model, i, T, k): return lambda w: w['pv'].calculate_partial_fluxes(T, w['comps'][i], 5e-5, w['cond'].permeate_temperature, w['cond'].permeate_pressure,
+                                                                                          Permeance(0.02 * k), Permeance(0.0003 * k), model)
+    from pyvaporation.permeance import Permeance
     for model in ('NRTL', 'UNIQUAC'):
         for i in range(5):
             L.append(('flux %s comp%d' % (model, i), flux(model, i, 323.15 + 3 * i)))
+        for k in (1.0, 3.0):          # same feed state, explicit permeances of different size
+            L.append(('flux %s comp1 explicit permeances x%g' % (model, k), flux_given(model, 1, 323.15 + 3, k)))
         L.append(('pressures %s' % model, lambda w, model=model: [get_partial_pressures(330.0, w['mix'], c, model) for c in w['comps']]))
         L.append(('permeate composition %s' % model, lambda w, model=model: w['pv'].calculate_permeate_composition(333.15, w['comps'][1], 5e-5, w['cond'].permeate_temperature, w['cond'].permeate_pressure, model)))
         L.append(('ideal curve %s' % model, lambda w, model=model: w['pv'].ideal_diffusion_curve(333.15, w['comps'][1:4], w['cond'].permeate_temperature, w['cond'].permeate_pressure, 5e-5, model)))
     L.append(('separation factor', lambda w: w['pv'].calculate_separation_factor(333.15, w['comps'][2], w['cond'].permeate_temperature, w['cond'].permeate_pressure)))
     L.append(('convert', lambda w: [w['perms'][1].convert('kg/(m2*h*kPa)', w['mix'].first_component).value, w['perms'][0].convert('SI', w['mix'].second_component).value]))
+    L.append(('conversions against a second mixture of the same name', lambda w: [w['comps'][4].to_molar(w['mix2']).p, w['comps'][1].to_weight(w['mix2']).p]))
     L.append(('convert without component', lambda w: _try(lambda: w['perms'][0].convert('SI').value)))
     L.append(('ideal isothermal', lambda w: w['pv'].ideal_isothermal_process(3, 0.2, w['cond'])))
     L.append(('ideal non-isothermal', lambda w: w['pv'].ideal_non_isothermal_process(w['cond'], 3, 0.2)))
@@ -94,6 +103,19 @@ def check(case):
         except (ValueError, KeyError) as e: want = 'raised ' + type(e).__name__
         if got != want:
             fails.append("call '%s' after history %s differs from the same call in a fresh state" % (name, hist[:-1])); break
+    if case.get('fresh_interpreter') and not fails and hist:
+        # module-level state survives copy.deepcopy of the argument objects: the reference for the LAST call of the history is computed
+        # in a new interpreter (the property's own wording)
+        import subprocess, sys, json, os
+        one = dict(case, force=[hist[-1]], length=1, fresh_interpreter=False, print_result=True)
+        p_ = subprocess.run([sys.executable, '-m', 'pvc.native.c20', json.dumps(one)], capture_output=True, text=True, timeout=300, env=dict(os.environ), cwd=os.path.dirname(os.path.dirname(os.path.dirname(os.path.abspath(__file__)))))
+        if p_.returncode == 0 and p_.stdout.strip():
+            want = json.loads(p_.stdout.strip().splitlines()[-1])
+            if json.loads(json.dumps(got, default=str)) != want:
+                fails.append("call '%s' after history %s differs from the same call made first in a fresh interpreter" % (hist[-1], hist[:-1]))
+    if case.get('print_result'):
+        import json
+        print(json.dumps(got, default=str))
     if strip([m for _, m in builtin_mixtures()] + [c for _, c in builtin_components()]) != builtins0: fails.append("built-in mixtures/components modified by %s" % hist)
     return fails
 
@@ -103,10 +125,20 @@ def corpus(seed, n):
     out = [dict(seed=seed * 1000 + i, length=rng.randint(2, 12) if i else 8, mode=rng.choice(['vacuum', 'temperature', 'pressure']), curves=rng.choice(['one', 'many']),
                 curve_type='molar' if i % 3 == 2 else 'weight') for i in range(n)]
     # forced histories: every model that takes a curve set, twice, on a curve set given in mole fractions (and on one in mass fractions)
-    forced = []
+    forced = [dict(seed=seed * 1000 + 400, length=2, mode='temperature', curves='one', force=['flux NRTL comp1 explicit permeances x1', 'flux NRTL comp1 explicit permeances x3']),
+              dict(seed=seed * 1000 + 401, length=4, mode='pressure', curves='one', force=['flux NRTL comp1', 'flux UNIQUAC comp1', 'flux UNIQUAC comp2', 'flux NRTL comp2'])]
+    forced += [dict(seed=seed * 1000 + 402, length=2, mode='vacuum', curves='one', fresh_interpreter=True, force=['convert', 'convert without component']),
+               dict(seed=seed * 1000 + 403, length=2, mode='vacuum', curves='one', fresh_interpreter=True, force=['pressures NRTL', 'conversions against a second mixture of the same name'])]
     for ct in ('molar', 'weight'):
         for curves in ('one', 'many'):
             for nm in ('non-ideal isothermal', 'non-ideal non-isothermal', 'non-ideal curve'):
                 forced.append(dict(seed=seed * 1000 + 500 + len(forced), length=3, mode='vacuum', curves=curves, curve_type=ct, force=[nm, 'measurements', nm]))
-    out += forced[:3 if n < 6 else 12]
+    out += forced[:6 if n < 6 else 16]
     return out
+
+
+if __name__ == '__main__':
+    import sys, json, io, contextlib
+    case_ = json.loads(sys.argv[1])
+    buf = io.StringIO()
+    check(case_)
